@@ -37,7 +37,7 @@ class C04(PropBase):
         out = []
         for i in range(n):
             klass = rng.choice(["distinct", "distinct", "distinct-audit", "duplicates", "scales", "empty-vs-absent", "priced", "uuid-vs-absent",
-                                "far-dates"])
+                                "far-dates", "dst-day"])
             cfg = {"group_by": rng.choice(["year", "month", "date", "iso-week", "iso-week-date"])}
             opts = {"p_invalid": 0.0, "n_txns": rng.choice([2, 3, 4, 5, 6, 8]), "comms": common.COMMS[:rng.randrange(1, 4)],
                     "p_comments": 0.3, "p_tags": 0.3, "p_loc": 0.2}
@@ -58,6 +58,25 @@ class C04(PropBase):
                 cfg["audit"] = True
                 cfg["hash"] = rng.choice(["SHA-256", "SHA-512", "SHA3-256"])
             txns = common.gen_journal(rng, cfg, opts)
+            if klass == "dst-day":
+                # a named journal zone and offset-less timestamps on both sides of an offset transition of one civil day:
+                # the offset of each is the zone's at that wall-clock time, whatever was parsed before it
+                import datetime
+                import zoneinfo
+                zname, day, before, after = rng.choice([
+                    ("Europe/Helsinki", (2024, 10, 27), [(1, 15), (2, 30), (2, 59)], [(4, 0), (4, 30), (9, 0)]),
+                    ("Europe/Helsinki", (2024, 3, 31), [(0, 30), (2, 59)], [(4, 0), (12, 0)]),
+                    ("America/New_York", (2024, 11, 3), [(0, 10), (0, 59)], [(2, 0), (3, 30)]),
+                    ("Australia/Lord_Howe", (2024, 4, 7), [(0, 30), (1, 29)], [(2, 0), (5, 0)])])
+                cfg["tz"] = {"name": zname}
+                z = zoneinfo.ZoneInfo(zname)
+                for k, t in enumerate(txns):
+                    hh, mm = rng.choice(before if k % 2 == 0 else after)
+                    dt = datetime.datetime(day[0], day[1], day[2], hh, mm, 0, tzinfo=z)
+                    off = int(dt.utcoffset().total_seconds())
+                    ns = int((dt - datetime.datetime(1970, 1, 1, tzinfo=datetime.timezone.utc)).total_seconds()) * 10 ** 9
+                    t["ts"] = {"ns": str(ns), "off": off, "text": "%04d-%02d-%02dT%02d:%02d:00" % (day[0], day[1], day[2], hh, mm)}
+                    t["uuid"] = common.gen_uuid(rng)
             if klass == "far-dates":
                 # instants on both sides of what a signed 64-bit nanosecond count can hold (1677 .. 2262), with ordinary ones
                 for t in txns:
